@@ -64,6 +64,33 @@ def service_part(ck):
                 ops += [("RP", c17.safe_report(w, a, rng))]
             ops.append(("T",))
         cases.append(("big%d" % i, ops, "mem"))
+    # rounds that repeat: the launch round submitted again after launch (ignored by the DB) followed by ordinary rounds on the same
+    # Drummer object, and the SAME round scheduled twice in a row with reports in between (a level-triggered scheduler does exactly
+    # that) - every round reaches the DB, every NodeHost's next report carries the batch most recently scheduled for it
+    for i in range(8 if ck.tier == "quick" else 80):
+        w = G.World(rng, nhosts=rng.randint(2, 5), nshards=rng.randint(1, 3))
+        ops = [("T",), ("Q", w.launch_batch())]
+        hosts = list(w.hosts)
+        for a in rng.sample(hosts, rng.randint(0, len(hosts))):
+            ops.append(("RP", c17.safe_report(w, a, rng)))
+        for _ in range(rng.randint(3, 6)):
+            x = rng.random()
+            if x < 0.3:
+                ops.append(("Q", w.launch_batch()))                              # launch again: ignored
+            qs = [w.random_request() for _ in range(rng.randint(1, 5))]
+            ops.append(("Q", qs))
+            some = rng.sample(hosts, rng.randint(1, len(hosts)))
+            for a in some:
+                ops.append(("RP", c17.safe_report(w, a, rng)))
+            if rng.random() < 0.6:
+                ops.append(("Q", [dict(q) for q in qs]))                         # the identical round again
+                for a in rng.sample(hosts, rng.randint(1, len(hosts))):
+                    ops.append(("RP", c17.safe_report(w, a, rng)))
+            if rng.random() < 0.3:
+                ops.append(("T",))
+        for a in hosts:
+            ops.append(("RP", c17.safe_report(w, a, rng)))
+        cases.append(("rep%d" % i, ops, "mem"))
     res, params, fail = c17.run_exec(ck, binp, cases, "c10svc")
     if res is None:
         ck.violation("service executor failed to run", {"kind": "executor", "rc": fail[0], "log_tail": fail[1]}, found_input=False)
